@@ -202,14 +202,39 @@ static const std::vector<Pair>& get_pairs(int r, bool th) {
 }
 
 // case = (type 0..3) x res x form(0: interval, 1: symmetric) x pair index (max over res of pair count is constant)
+
+// ---- flat axes: lower == upper on one axis (a slice), the value sweeping every multiple and half-multiple of the resolution ----------------
+template <class S, size_t DIM> void flat_axes(vf::Ctx& c, const char* tname, double res_d) {
+  using G = GridIndexMapping<S, DIM>; using Pt = typename G::PointType;
+  S res = (S)res_d;
+  int kmax = (int)std::min(4000.0, 1000.0 / res_d);
+  for (int k = -kmax; k <= kmax; ++k) for (int half = 0; half < 2; ++half) for (size_t flatAxis = 0; flatAxis < DIM; ++flatAxis) {
+    S v = (S)((k + 0.5 * half) * res_d);
+    if (std::fabs(v) > 1000) continue;
+    Pt lo, hi, p;
+    for (size_t d = 0; d < DIM; ++d) { lo[d] = d == flatAxis ? v : (S)-1; hi[d] = d == flatAxis ? v : (S)1; p[d] = d == flatAxis ? v : (S)0.25; }
+    long double cells = 1; for (size_t d = 0; d < DIM; ++d) cells *= ((long double)hi[d] - lo[d]) / res + 2;
+    if (cells > 1e7L) { c.trivial(); continue; }
+    G g(Interval<S, DIM>(lo, hi), res);
+    auto N = g.getNumberOfCellsAlongAxes(); auto ix = g.computeCellIndexes(p);
+    c.eval(); c.nontrivial(); c.obs((uint64_t)ix[flatAxis]);
+    bool ok = true; for (size_t d = 0; d < DIM; ++d) if (!(ix[d] < N[d])) ok = false;
+    if (ok) { auto ce = g.computeCellCenterPosition(ix); if (std::fabs((long double)ce[flatAxis] - v) > (long double)res / 2 + 4 * (long double)ulp<S>(std::fabs(v) + res)) ok = false; }
+    if (!ok) { c.violation("GridIndexMapping.computeCellIndexes.outOfRange", vf::JO().str("type", tname).i("dim", DIM).num("res", res).str("form", "flat axis").i("flat_axis", flatAxis).num("value", v).done(), vf::JO().u("index", ix[flatAxis]).u("cells", N[flatAxis]).done()); return; }
+  }
+}
+
 uint64_t vf_ncases(const std::string& tier) {
   bool th = tier == "thorough";
-  return 4ull * kNRes * 3 * get_pairs(0, th).size();
+  return 4ull * kNRes * 3 * get_pairs(0, th).size() + 4ull * kNRes;
 }
 
 void vf_run(uint64_t idx, const std::string& tier, vf::Ctx& c) {
   bool th = tier == "thorough";
   size_t np = get_pairs(0, th).size();
+  if (idx >= 4ull * kNRes * 3 * np) { uint64_t k = idx - 4ull * kNRes * 3 * np; int t = (int)(k / kNRes); double r = kRes[k % kNRes];
+    switch (t) { case 0: flat_axes<double, 2>(c, "double2", r); break; case 1: flat_axes<double, 3>(c, "double3", r); break; case 2: flat_axes<float, 2>(c, "float2", r); break; default: flat_axes<float, 3>(c, "float3", r); }
+    return; }
   vf::Radix r; r.dims = {4, (uint64_t)kNRes, 3, np};
   auto t = r.decode(idx);
   const auto& P = get_pairs((int)t[1], th);
@@ -232,6 +257,7 @@ std::string vf_describe(const std::string& tier) {
   vf::JO o;
   o.vec("resolutions", std::vector<double>(kRes, kRes + kNRes));
   o.u("bound_pairs_per_resolution", get_pairs(0, th).size());
+  o.str("flat_axes", "one axis with lower == upper = (k + h/2) res for every k in [-min(4000, 1000/res), ...] and h in {0,1}, each axis in turn flat, all resolutions, float and double, 2D and 3D: index in bounds and the cell centre within half a resolution");
   o.str("forms", "symmetric maximal-range form; general interval form with independent bound pairs per axis; general interval form with twin axes (same width, lower bounds 4 / -3 cells apart)");
   o.str("bounds", "(i+f)*res, i in [-6,6] (quick: -6,-1,0,1,5), f in {0,+-1/4,1/2}; absolute +-1000,-999.9995,512,-512.3,+-1.5,-0.7,2.25,37.5,-64,999.75");
   o.str("types", "double/float x 2D/3D; interval and symmetric constructor");
